@@ -353,7 +353,7 @@ func fieldName(ptrType types.Type, i int) string {
 	if st == nil || i >= st.NumFields() {
 		return fmt.Sprintf("f%d", i)
 	}
-	return st.Field(i).Name()
+	return fvName(st.Field(i))
 }
 
 func fieldNameT(t types.Type, i int) string { return fieldName(t, i) }
